@@ -26,8 +26,8 @@ Proof. exact (diff_links K V cmp veq layer cmp_refl veq_refl P hered Pfun). Qed.
 End GENERIC.
 
 (** the library's key and value types, two reachable trees over one store *)
-Theorem C07_node_diff : forall s kind bf (mo mn : kmast) lo ln,
-  kcanon bf mo lo -> kcanon bf mn ln -> root_allh s kind mo -> root_allh s kind mn ->
+Theorem C07_node_diff : forall fmt s kind bf (mo mn : kmast) lo ln,
+  kcanon bf mo lo -> kcanon bf mn ln -> root_allh fmt s kind mo -> root_allh fmt s kind mn ->
   oks (diff _ _ kcmp bytes_eqb (klayer bf) (Some mo) mn)
       (fun r => let NN := names_l key val (m_root _ _ mn) in let NO := names_l key val (m_root _ _ mo) in
                 incl (ads key val r) NN /\ incl NN (ads key val r ++ NO) /\ incl (rms key val r) NO /\ incl NO (rms key val r ++ NN)).
@@ -35,16 +35,16 @@ Proof. exact k_diff_links. Qed.
 
 (** Consequently: a store s1 that holds the old version (agrees with the source store s on every
     name the old version reaches), extended to s2 by the nodes reported as added, holds the whole
-    new version: [sto s2 kind hn cn], from which LoadMast succeeds with the same contents
+    new version: [sto fmt s2 kind hn cn], from which LoadMast succeeds with the same contents
     (Reload.load_canon). *)
-Theorem C07_replica_sync : forall s s1 s2 kind bf (mo mn : kmast) lo ln hn cn r t,
-  kcanon bf mo lo -> kcanon bf mn ln -> root_allh s kind mo -> root_allh s kind mn ->
+Theorem C07_replica_sync : forall fmt s s1 s2 kind bf (mo mn : kmast) lo ln hn cn r t,
+  kcanon bf mo lo -> kcanon bf mn ln -> root_allh fmt s kind mo -> root_allh fmt s kind mn ->
   m_root _ _ mn = LHash hn cn ->
   diff _ _ kcmp bytes_eqb (klayer bf) (Some mo) mn = (t, Ok r) ->
   (forall x b, In x (names_l key val (m_root _ _ mo)) -> Store.lookup s x = Some b -> Store.lookup s1 x = Some b) ->
   extends s1 s2 ->
   (forall x b, In x (ads key val r) -> Store.lookup s x = Some b -> Store.lookup s2 x = Some b) ->
-  sto s2 kind hn cn.
+  sto fmt s2 kind hn cn.
 Proof. exact k_replica_sync. Qed.
 
 (** non-vacuity: a persisted version and its persisted descendant in the history model *)
@@ -89,12 +89,12 @@ Proof. exact (PS_keyed K V layer P). Qed.
 End ONCE.
 
 (** for the library's keys, two reachable trees over one store *)
-Theorem C07_at_most_once_k : forall s kind bf (mo mn : kmast) lo ln,
+Theorem C07_at_most_once_k : forall fmt s kind bf (mo mn : kmast) lo ln,
   kcanon bf mo lo -> kcanon bf mn ln -> no_stored_empty key val mo lo -> no_stored_empty key val mn ln ->
-  root_allh s kind mo -> root_allh s kind mn ->
+  root_allh fmt s kind mo -> root_allh fmt s kind mn ->
   oks (diff _ _ kcmp bytes_eqb (klayer bf) (Some mo) mn) (fun r => NoDup (ads key val r) /\ NoDup (rms key val r)).
 Proof.
-  intros s kind bf. exact (diff_once_canon key val kcmp bytes_eqb (klayer bf) kcmp_eq bytes_eqb_refl (sto s kind) (sto_hered s kind) (sto_fun s kind) bf).
+  intros fmt s kind bf. exact (diff_once_canon key val kcmp bytes_eqb (klayer bf) kcmp_eq bytes_eqb_refl (sto fmt s kind) (sto_hered fmt s kind) (sto_fun fmt s kind) bf).
 Qed.
 Print Assumptions C07_sound_and_complete.
 Print Assumptions C07_node_diff.
